@@ -1,1 +1,379 @@
-"""rules for c09 (under construction)"""
+"""C09 - restarts and step-size control keep their promises (structural clauses)."""
+
+import ast
+import re
+
+from ..cfg import FuncCFG, walk_no_nested
+from ..model import AnalysisError, ClassInfo
+from ..norm import Normalizer, bool_nf, nnf
+from ..runner import rule
+from .. import controllers as ct
+from .. import facts
+from .. import setups
+
+CC = 'pySDC/implementations/convergence_controller_classes/'
+BR = CC + 'basic_restarting.py'
+AD = CC + 'adaptivity.py'
+LIM = CC + 'step_size_limiter.py'
+SP = CC + 'spread_step_sizes.py'
+
+
+def _name(x):
+    return (x.cls.name + '.' if x.cls else '') + x.fn.name
+
+
+WRITERS = {
+    'restart': {
+        'AdaptivityBase.determine_restart', 'AdaptivityForConvergedCollocationProblems.determine_restart', 'AdaptivityCollocation.determine_restart',
+        'AdaptivityForConvergedCollocationProblems.trigger_restart_upon_nonconvergence', 'BasicRestartingNonMPI.determine_restart',
+        'BasicRestartingMPI.determine_restart', 'HotRod.determine_restart',
+    },
+    'dt_new': {
+        'Adaptivity.get_new_step_size', 'AdaptivityRK.get_new_step_size', 'AdaptivityResidual.get_new_step_size', 'AdaptivityCollocation.get_new_step_size',
+        'AdaptivityExtrapolationWithinQ.get_new_step_size', 'AdaptivityPolynomialError.get_new_step_size',
+        'AdaptivityForConvergedCollocationProblems.trigger_restart_upon_nonconvergence', 'StepSizeLimiter.get_new_step_size',
+        'StepSizeSlopeLimiter.get_new_step_size', 'StepSizeRounding.get_new_step_size',
+    },
+    'dt': {'SpreadStepSizesBlockwiseNonMPI.prepare_next_block', 'SpreadStepSizesBlockwiseMPI.prepare_next_block'},
+    'restarts_in_a_row': {'BasicRestartingNonMPI.prepare_next_block', 'BasicRestartingMPI.prepare_next_block'},
+}
+WRITER_EXC = {('dt_new', 'CFLLimit.get_new_step_size'): 'problem-specific CFL limiter shipped with RayleighBenard (a get_new_step_size controller like the limiters)'}
+
+
+@rule('C09', 'C09.R1', 'who may write status.restart, status.dt_new, params.dt, restarts_in_a_row (table B1)', floor=33)
+def r1(ctx, R):
+    repo = ctx.repo
+    W = ctx.memo('attr_writes', lambda: facts.attr_writes(repo))
+    seen = {k: set() for k in WRITERS}
+    for x in W:
+        if x.attr not in WRITERS:
+            continue
+        if x.attr == 'dt':
+            if not x.receiver.endswith('.params') or 'level' not in x.receiver.lower() and not re.search(r'(^|\.)(L|lvl|l)\.params$', x.receiver):
+                continue
+        elif x.attr == 'restart':
+            if not x.receiver.endswith('.status'):
+                continue
+        elif not x.receiver.endswith('.status'):
+            continue
+        if x.cls is not None and x.cls.name in ('_Status', 'Status') and x.fn.name == '__init__':
+            continue
+        nm = _name(x)
+        c = f'{nm} :: {x.target} {x.op} {x.rhs()[:60]}'
+        if nm in WRITERS[x.attr]:
+            seen[x.attr].add(nm)
+            R.ok(c, x.qual, found='sanctioned writer')
+        elif (x.attr, nm) in WRITER_EXC:
+            R.exc(c, x.qual, WRITER_EXC[(x.attr, nm)])
+        else:
+            R.bad(c, x.qual, f'{x.attr} is written only by {sorted(WRITERS[x.attr])}', f'new writer {nm}')
+    for k, names in WRITERS.items():
+        missing = names - seen[k]
+        if missing:
+            raise AnalysisError(f'C09.R1: tabled writers of {k} not found any more: {sorted(missing)}')
+
+
+@rule('C09', 'C09.R2', 'retry bound: max_restart_reached is restarts_in_a_row >= max_restarts; ConvergenceError under crash_after_max_restarts; restart conjoined with not max_restart_reached', floor=7)
+def r2(ctx, R):
+    repo = ctx.repo
+    for cn in ('BasicRestartingNonMPI', 'BasicRestartingMPI'):
+        fn = repo.func(BR, f'{cn}.determine_restart')
+        w = f'{BR}:{cn}.determine_restart'
+        R.fn(w)
+        cfg = FuncCFG(fn)
+        N = Normalizer(fn, inline_scalars=False)
+        mr = [c for c in N.contribs if c.target == 'self.buffers.max_restart_reached' and c.guards == ['S.status.first']]
+        ok = len(mr) == 1 and bool_nf(mr[0].stmt.value) == 'self.params.max_restarts <= S.status.restarts_in_a_row'
+        R.check(ok, f'{cn}.determine_restart :: first step: max_restart_reached = restarts_in_a_row >= max_restarts', w, 'S.status.restarts_in_a_row >= self.params.max_restarts', [c.describe() for c in mr])
+        # every comparison of the counter against the budget uses the same operator
+        cmps = [x for x in walk_no_nested(fn) if isinstance(x, ast.Compare) and 'restarts_in_a_row' in ast.unparse(x) and 'max_restarts' in ast.unparse(x)]
+        for i, x in enumerate(cmps):
+            s = bool_nf(x)
+            R.check(s == 'self.params.max_restarts <= S.status.restarts_in_a_row', f'{cn}.determine_restart :: comparison #{i} of the retry counter with the budget', w, 'restarts_in_a_row >= max_restarts (same operator at every site, as in the serial sibling)', ast.unparse(x))
+        # crash under crash_after_max_restarts, in the arm where the bound holds and a restart is wanted
+        if cn == 'BasicRestartingNonMPI':
+            rs = [(n, s) for n, s in cfg.stmt_of.items() if isinstance(s, ast.Raise) and 'ConvergenceError' in ast.unparse(s)]
+            g = facts.guard_strings(cfg, rs[0][1]) if rs else []
+            ok = len(rs) == 1 and g == ['S.status.first', 'self.buffers.max_restart_reached and S.status.restart', 'self.params.crash_after_max_restarts']
+            R.check(ok, f'{cn}.determine_restart :: ConvergenceError when the budget is exhausted, a restart is wanted and crash_after_max_restarts', w, 'raise under first & max_restart_reached & restart & crash_after_max_restarts', g)
+        else:
+            cn_ = [c for c in N.contribs if c.target == 'crash_now' and c.rhs == 'True']
+            ok = len(cn_) == 1 and cn_[0].guards == ['S.status.first', 'self.buffers.max_restart_reached and S.status.restart', 'self.params.crash_after_max_restarts']
+            rs = [(n, s) for n, s in cfg.stmt_of.items() if isinstance(s, ast.Raise) and 'ConvergenceError' in ast.unparse(s)]
+            ok = ok and len(rs) == 1 and facts.guard_strings(cfg, rs[0][1])[-1:] == ['crash_now']
+            R.check(ok, f'{cn}.determine_restart :: ConvergenceError (deferred until after the communication) under the same condition', w, 'crash_now = True under first & reached & restart & crash flag; raise if crash_now', [c.describe() for c in cn_])
+        fin = [c for c in N.contribs if c.target == 'S.status.restart' and not any('restart_from_first_step' in g and 'not' not in g for g in c.guards)]
+        ok = len(fin) >= 1 and all(isinstance(nnf(c.stmt.value), tuple) and nnf(c.stmt.value)[0] == 'and' and ('not', 'self.buffers.max_restart_reached') in nnf(c.stmt.value)[1] for c in fin)
+        R.check(ok, f'{cn}.determine_restart :: the final restart flag is conjoined with not max_restart_reached (moving on)', w, 'S.status.restart = (...) and not max_restart_reached', [c.describe() for c in fin])
+
+
+@rule('C09', 'C09.R3', 'restart propagates to all later steps in slot order; buffers reset after every IT_CHECK; restart_from_first_step copies on the last step', floor=6)
+def r3(ctx, R):
+    repo = ctx.repo
+    fn = repo.func(BR, 'BasicRestartingNonMPI.determine_restart')
+    w = f'{BR}:BasicRestartingNonMPI.determine_restart'
+    R.fn(w)
+    N = Normalizer(fn, inline_scalars=False)
+    cfg = FuncCFG(fn)
+    acc = [c for c in N.contribs if c.target == 'self.buffers.restart']
+    ok = len(acc) == 1 and not acc[0].guards and bool_nf(acc[0].stmt.value) == ('or', ('S.status.restart', 'self.buffers.restart'))
+    R.check(ok, 'BasicRestartingNonMPI :: buffers.restart accumulates with `or` over the steps, unconditionally', w, 'self.buffers.restart = S.status.restart or self.buffers.restart', [c.describe() for c in acc])
+    fin = [c for c in N.contribs if c.target == 'S.status.restart']
+    ok = len(fin) == 1 and acc and cfg.dominates(cfg.node_of[id(acc[0].stmt)], cfg.node_of[id(fin[0].stmt)]) and 'self.buffers.restart' in ast.unparse(fin[0].stmt.value)
+    R.check(ok, 'BasicRestartingNonMPI :: a step restarts if it or any earlier step of the block wants to', w, 'S.status.restart = (S.status.restart or buffers.restart) and ..., after the accumulation', [c.describe() for c in fin])
+    allst = [c for c in N.contribs if c.target == 'step.status.restart']
+    ok = len(allst) == 1 and allst[0].rhs == 'self.buffers.restart' and nnf(ast.parse(allst[0].guards[0], mode='eval').body) == ('and', tuple(sorted(['S.status.last', 'self.params.restart_from_first_step', ('not', 'self.buffers.max_restart_reached')], key=repr))) and allst[0].loops and allst[0].loops[0].it == 'MS'
+    R.check(ok, 'BasicRestartingNonMPI :: restart_from_first_step copies the accumulated flag to all steps, on the last step only', w, 'if last and restart_from_first_step and not reached: for step in MS: step.status.restart = buffers.restart', [c.describe() for c in allst])
+    rb = repo.func(BR, 'BasicRestartingNonMPI.reset_buffers_nonMPI')
+    Nb = Normalizer(rb, inline_scalars=False)
+    got = {c.target: c.rhs for c in Nb.contribs}
+    R.check(got.get('self.buffers.restart') == 'False' and got.get('self.buffers.max_restart_reached') == 'False', 'BasicRestartingNonMPI.reset_buffers_nonMPI :: both buffers cleared', f'{BR}:BasicRestartingNonMPI.reset_buffers_nonMPI', 'restart = False; max_restart_reached = False', got)
+    for spec in (ct.NONMPI, ct.PARADIAG):
+        _, hs = ct.handler_table(repo, spec)
+        h = hs['IT_CHECK']
+        rbc = h.calls('reset_buffers_nonMPI')
+        dec = h.calls('convergence_control')
+        hdr = None
+        if rbc:
+            lp = h.cfg.loops_of[id(h.cfg.stmt_of[rbc[0][0]])]
+            hdr = h.cfg.node_of[id(lp[0])] if lp else rbc[0][0]
+        ok = len(rbc) == 1 and len(dec) == 1 and h.cfg.dominates(hdr, 'EXIT') and not h.cfg.reachable(hdr, dec[0][0]) and (not lp or ast.unparse(lp[0].iter).startswith('[self.convergence_controllers[i]'))
+        R.check(ok, f'{spec[1]}.it_check :: buffers are reset at the end of every IT_CHECK, after all steps decided', h.where, 'C.reset_buffers_nonMPI(self) on every path to exit, after the decision loop', f'{len(rbc)} reset site(s)')
+
+
+@rule('C09', 'C09.R4', 'retry counter: old+1 if restart else 0, re-mapped to the slot the step will occupy', floor=4)
+def r4(ctx, R):
+    repo = ctx.repo
+    fn = repo.func(BR, 'BasicRestartingNonMPI.prepare_next_block')
+    w = f'{BR}:BasicRestartingNonMPI.prepare_next_block'
+    R.fn(w)
+    N = Normalizer(fn, inline_scalars=False)
+    N2 = Normalizer(fn)
+    rf = [c for c in N.contribs if c.target == 'restart_from']
+    ok = len(rf) == 1 and rf[0].rhs == 'min([me.status.slot for me in MS if me.status.restart] + [size - 1])'
+    R.check(ok, 'BasicRestartingNonMPI.prepare_next_block :: restart_from is the smallest restarting slot (or the last slot)', w, 'min([slots that restart] + [size - 1])', [c.describe() for c in rf])
+    def idx(t):
+        m = re.fullmatch(r'MS\[(.+)\]\.status\.restarts_in_a_row', t)
+        return str(N2.affine(ast.parse(m.group(1), mode='eval').body)) if m else t
+    cnt = [c for c in N2.contribs if c.target.endswith('.status.restarts_in_a_row')]
+    got = sorted((idx(c.target), c.rhs, tuple(c.guards[-1:])) for c in cnt)
+    want = sorted([('-S.status.slot+restart_from', '0', ('S.status.slot < restart_from',)),
+                   ('S.status.slot-restart_from', 'S.status.restarts_in_a_row + 1 if S.status.restart else 0', ('S.status.slot >= restart_from',))])
+    R.check(got == want, 'BasicRestartingNonMPI.prepare_next_block :: counter = old + 1 if restarted else 0, stored at the re-mapped slot', w, want, got)
+    fn = repo.func(BR, 'BasicRestartingMPI.prepare_next_block')
+    w = f'{BR}:BasicRestartingMPI.prepare_next_block'
+    R.fn(w)
+    N = Normalizer(fn, inline_scalars=False)
+    snd = [c for c in N.contribs if c.target == 'buff[0]']
+    ok = len(snd) == 1 and snd[0].rhs == 'int(S.status.restarts_in_a_row + 1 if S.status.restart else 0)' and snd[0].guards == ['S.status.slot >= restart_from']
+    R.check(ok, 'BasicRestartingMPI.prepare_next_block :: sends old + 1 if restarted else 0 from the restarting slots', w, 'buff[0] = int(restarts_in_a_row + 1 if restart else 0) if slot >= restart_from', [c.describe() for c in snd])
+    calls = {c[0].split('(')[0]: c for c in N.calls}
+    s_kw = {k.arg: ast.unparse(k.value) for k in calls['self.Send'][4].keywords} if 'self.Send' in calls else {}
+    r_kw = {k.arg: ast.unparse(k.value) for k in calls['self.Recv'][4].keywords} if 'self.Recv' in calls else {}
+    ok = s_kw.get('dest') == 'S.status.slot - restart_from' and r_kw.get('source') == 'S.status.slot + restart_from'
+    R.check(ok, 'BasicRestartingMPI.prepare_next_block :: sender slot - restart_from pairs with receiver slot + restart_from', w, 'dest = slot - restart_from ; source = slot + restart_from', {'dest': s_kw.get('dest'), 'source': r_kw.get('source')})
+
+
+@rule('C09', 'C09.R5', 'one step size per block: params.dt is set on all levels of every step from a single step of the block', floor=4)
+def r5(ctx, R):
+    repo = ctx.repo
+    for cn in ('SpreadStepSizesBlockwiseNonMPI', 'SpreadStepSizesBlockwiseMPI'):
+        fn = repo.func(SP, f'{cn}.prepare_next_block')
+        w = f'{SP}:{cn}.prepare_next_block'
+        R.fn(w)
+        N = Normalizer(fn, inline_scalars=False)
+        st = [c for c in N.contribs if re.fullmatch(r'S\.levels\[.+\]\.params\.dt', c.target)]
+        ok = len(st) == 1 and st[0].loops and st[0].loops[-1].kind == 'range' and str(st[0].loops[-1].hi) == 'len(S.levels)' and re.fullmatch(r'new_steps\[i1 - 1\]', st[0].rhs or '') and not [g for g in st[0].guards if 'MS' not in g]
+        R.check(ok, f'{cn}.prepare_next_block :: every level of the step gets the spread step size', w, 'for i in range(len(S.levels)): S.levels[i].params.dt = new_steps[i]', [c.describe() for c in st])
+        src = [c for c in N.contribs if c.target.startswith('new_steps[') and c.rhs and c.rhs.startswith('min(')]
+        if cn.endswith('NonMPI'):
+            ok = len(src) == 1 and 'MS[spread_from_step].levels' in ast.unparse(fn)
+            lv = [c for c in N.contribs if c.target == 'l' and c.rhs and 'spread_from_step' in c.rhs]
+            ok = ok and len(lv) == 1 and lv[0].rhs == 'MS[spread_from_step].levels[i1 - 1]'
+        else:
+            ok = len(src) == 1 and src[0].guards and src[0].guards[0] == 'S.status.slot == spread_from_step' and any(c[0] == 'comm.bcast(new_steps, root=spread_from_step)' for c in N.calls)
+        R.check(ok, f'{cn}.prepare_next_block :: the value comes from ONE step of the block (spread_from_step)', w, 'levels of MS[spread_from_step] / bcast(root=spread_from_step)', [c.describe()[:160] for c in src])
+    for spec in (ct.NONMPI, ct.PARADIAG):
+        fn = repo.func(spec[0], f'{spec[1]}.run')
+        calls = [c for c in ast.walk(fn) if isinstance(c, ast.Call) and isinstance(c.func, ast.Attribute) and c.func.attr == 'prepare_next_block']
+        ok = False
+        for lc in ast.walk(fn):
+            if isinstance(lc, ast.ListComp) and calls and calls[0] in list(ast.walk(lc)):
+                ok = ast.unparse(lc.generators[0].iter) == 'self.MS'
+        R.check(ok, f'{spec[1]}.run :: prepare_next_block is called for every step of the controller', f'{spec[0]}:{spec[1]}.run', '[C.prepare_next_block(...) for S in self.MS]', [ast.unparse(c)[:80] for c in calls])
+
+
+@rule('C09', 'C09.R6', 'dt formula: beta * dt * (e_tol / e_est) ** (1/order), used by every estimate-based get_new_step_size with beta, the level dt and e_tol', floor=11)
+def r6(ctx, R):
+    repo = ctx.repo
+    fn = repo.func(AD, 'AdaptivityBase.compute_optimal_step_size')
+    w = f'{AD}:AdaptivityBase.compute_optimal_step_size'
+    R.fn(w)
+    ret = [s for s in walk_no_nested(fn) if isinstance(s, ast.Return)]
+    names = [a.arg for a in fn.args.args[1:]]
+    ok = len(ret) == 1 and len(names) == 5
+    if ok:
+        beta, dt, tol, est, order = names
+        N = Normalizer(fn)
+        t = N.terms(ret[0].value)
+        ok = len(t) == 1 and t[0][0] == 1 and len(t[0][1]) == 3 and beta in t[0][1] and dt in t[0][1]
+        pw = [f for f in t[0][1] if f not in (beta, dt)] if ok else []
+        if ok:
+            p = ast.parse(pw[0], mode='eval').body
+            ok = isinstance(p, ast.BinOp) and isinstance(p.op, ast.Pow) and ast.unparse(p.left) == f'{tol} / {est}' and ast.unparse(p.right) in (f'1.0 / {order}', f'1 / {order}')
+    R.check(ok, 'compute_optimal_step_size :: beta * dt * (e_tol / e_est) ** (1 / order)', w, 'product of beta, dt and (e_tol/e_est)^(1/order)', ast.unparse(ret[0].value) if ret else None)
+    base = repo.cls(AD, 'AdaptivityBase')
+    for ci in repo.subclasses(base):
+        if 'get_new_step_size' not in ci.methods or not repo.is_library(ci):
+            continue
+        g = ci.methods['get_new_step_size']
+        N = Normalizer(g, inline_scalars=False)
+        w = f'{ci.module.relpath}:{ci.name}.get_new_step_size'
+        cs = [c for c in N.contribs if c.target.endswith('.status.dt_new')]
+        use = [c for c in cs if c.call and c.call[0] == 'self.compute_optimal_step_size']
+        if not cs:
+            continue
+        R.fn(w)
+        if not use:
+            if ci.name == 'AdaptivityResidual':
+                R.exc(f'{ci.name}.get_new_step_size :: residual-based halving/doubling', w, 'not an error-estimate controller: step size is halved/doubled on residual thresholds (documented), formula not applicable')
+            elif ci.name == 'AdaptivityBase':
+                continue
+            else:
+                R.bad(f'{ci.name}.get_new_step_size :: uses the common formula', w, 'dt_new = self.compute_optimal_step_size(beta, dt, e_tol, e_est, order)', [c.describe()[:100] for c in cs])
+            continue
+        a = use[0].call[1]
+        lv = use[0].target[: -len('.status.dt_new')]
+        ok = len(use) == 1 and len(a) == 5 and a[0] == 'self.params.beta' and a[1] == f'{lv}.params.dt' and a[2] == 'self.params.e_tol' and a[3] == 'self.get_local_error_estimate(controller, S)' or (len(a) == 5 and a[3] == 'e_est' and a[:3] == ['self.params.beta', f'{lv}.params.dt', 'self.params.e_tol'])
+        if ok and a[3] == 'e_est':
+            d = [c for c in N.contribs if c.target == 'e_est']
+            ok = len(d) == 1 and d[0].rhs.startswith('self.get_local_error_estimate(controller, S')
+        R.check(ok, f'{ci.name}.get_new_step_size :: dt_new = compute_optimal_step_size(beta, level dt, e_tol, local error estimate, order)', w, 'beta <- params.beta, dt <- level params.dt, e_tol <- params.e_tol, e_est <- get_local_error_estimate', a)
+        R.check(lv.endswith('S.levels[0]') or N.env.alias.get(lv) is not None and ast.unparse(N.env.alias[lv]) == 'S.levels[0]', f'{ci.name}.get_new_step_size :: proposal stored on the finest level', w, 'S.levels[0].status.dt_new', lv)
+
+
+@rule('C09', 'C09.R7', 'restart test: at maxiter (or convergence) the step restarts iff the error estimate reaches/exceeds e_tol', floor=3)
+def r7(ctx, R):
+    repo = ctx.repo
+    fn = repo.func(AD, 'AdaptivityBase.determine_restart')
+    w = f'{AD}:AdaptivityBase.determine_restart'
+    R.fn(w)
+    cfg = FuncCFG(fn)
+    sets = [s for s in cfg.stmt_of.values() if isinstance(s, ast.Assign) and ast.unparse(s.targets[0]) == 'S.status.restart']
+    okall = bool(sets)
+    for s in sets:
+        g = facts.guard_strings(cfg, s)
+        okall &= g[:2] == ['S.status.iter >= S.params.maxiter', 'e_est >= self.params.e_tol'] and ast.unparse(s.value) == 'True'
+    plain = [s for s in sets if any(x.startswith("not (self.params.get('avoid_restarts'))") for x in facts.guard_strings(cfg, s))]
+    okall &= len(plain) == 1
+    ed = [s for s in cfg.stmt_of.values() if isinstance(s, ast.Assign) and ast.unparse(s.targets[0]) == 'e_est']
+    okall &= len(ed) == 1 and ast.unparse(ed[0].value) == 'self.get_local_error_estimate(controller, S)'
+    R.check(okall, 'AdaptivityBase.determine_restart :: at iter >= maxiter: restart = True iff e_est >= e_tol (unless avoid_restarts estimates otherwise)', w, 'guards [iter >= maxiter, e_est >= e_tol]; one unconditional arm when avoid_restarts is off', [facts.guard_strings(cfg, s) for s in sets])
+    fc = [s for s in cfg.stmt_of.values() if isinstance(s, ast.Assign) and ast.unparse(s.targets[0]) == 'S.status.force_continue']
+    ok = len(fc) == 1 and "self.params.get('avoid_restarts')" in facts.guard_strings(cfg, fc[0])
+    R.check(ok, 'AdaptivityBase.determine_restart :: force_continue only under avoid_restarts', w, 'S.status.force_continue = True in the avoid_restarts arm', [facts.guard_strings(cfg, s) for s in fc])
+    for cn, guard0 in (('AdaptivityCollocation', 'len(self.status.order) == self.params.num_colls'), ('AdaptivityForConvergedCollocationProblems', 'self.get_convergence(controller, S, **kwargs)')):
+        fn = repo.func(AD, f'{cn}.determine_restart')
+        w = f'{AD}:{cn}.determine_restart'
+        R.fn(w)
+        cfg = FuncCFG(fn)
+        sets = [s for s in cfg.stmt_of.values() if isinstance(s, ast.Assign) and ast.unparse(s.targets[0]) == 'S.status.restart']
+        ok = len(sets) == 1 and ast.unparse(sets[0].value) == 'True'
+        if ok:
+            g = facts.guard_strings(cfg, sets[0])
+            cmp_ = [x for x in g if 'e_tol' in x and 'get_local_error_estimate' in x or re.fullmatch(r'e_est >=? self\.params\.e_tol', x)]
+            ok = g[0] == guard0 and len(cmp_) == 1 and re.search(r'>=? self\.params\.e_tol$', cmp_[0]) is not None
+        R.check(ok, f'{cn}.determine_restart :: restart iff the local error estimate reaches/exceeds e_tol once the step is converged', w, f'[{guard0}, estimate >(=) e_tol]', [facts.guard_strings(cfg, s) for s in sets])
+
+
+@rule('C09', 'C09.R8', 'clamp idiom: the comparison direction and the bound written agree in every limiter', floor=4)
+def r8(ctx, R):
+    repo = ctx.repo
+    fn = repo.func(LIM, 'StepSizeLimiter.get_new_step_size')
+    w = f'{LIM}:StepSizeLimiter.get_new_step_size'
+    R.fn(w)
+    N = Normalizer(fn, inline_scalars=False)
+    got = sorted((c.guards[-1], c.rhs) for c in N.contribs if c.target == 'L.status.dt_new')
+    want = sorted([('L.status.dt_new < self.params.dt_min', 'self.params.dt_min'), ('L.status.dt_new >= self.params.dt_min and L.status.dt_new > self.params.dt_max', 'self.params.dt_max')])
+    got2 = sorted((c.guards[-1].split(' and ')[-1] if ' and ' in c.guards[-1] else c.guards[-1], c.rhs) for c in N.contribs if c.target == 'L.status.dt_new')
+    want2 = sorted([('L.status.dt_new < self.params.dt_min', 'self.params.dt_min'), ('L.status.dt_new > self.params.dt_max', 'self.params.dt_max')])
+    R.check(got2 == want2, 'StepSizeLimiter :: below dt_min -> dt_min ; above dt_max -> dt_max', w, want2, got2)
+    R.check(all('L.status.dt_new is not None' in c.guards for c in N.contribs if c.target == 'L.status.dt_new'), 'StepSizeLimiter :: only an existing proposal is limited', w, 'guard dt_new is not None', [c.guards for c in N.contribs if c.target == 'L.status.dt_new'])
+    fn = repo.func(LIM, 'StepSizeSlopeLimiter.get_new_step_size')
+    w = f'{LIM}:StepSizeSlopeLimiter.get_new_step_size'
+    R.fn(w)
+    N = Normalizer(fn)
+    def val(c):
+        if re.fullmatch(r'\w+', c.rhs or ''):
+            d = [x for x in N.contribs if x.target == c.rhs and x.guards == c.guards]
+            if len(d) == 1:
+                return d[0].rhs
+        return c.rhs
+    got = sorted((c.guards[-1].split(' and ')[-1] if c.guards[-1].count(' and ') and 'abs(' not in c.guards[-1] else c.guards[-1], val(c)) for c in N.contribs if c.target == 'L.status.dt_new')
+    want_pairs = [('L.status.dt_new / L.params.dt < self.params.dt_slope_min', 'L.params.dt * self.params.dt_slope_min'), ('L.status.dt_new / L.params.dt > self.params.dt_slope_max', 'L.params.dt * self.params.dt_slope_max')]
+    ok = all(p in got for p in want_pairs) and len(got) == 3
+    R.check(ok, 'StepSizeSlopeLimiter :: ratio below slope_min -> dt*slope_min ; above slope_max -> dt*slope_max', w, want_pairs, got)
+    third = [c for c in N.contribs if c.target == 'L.status.dt_new' and c.rhs == 'L.params.dt']
+    ok = len(third) == 1 and 'abs(L.status.dt_new / L.params.dt - 1) < self.params.dt_rel_min_slope' in third[0].guards[-1] and 'not S.status.restart' in third[0].guards[-1]
+    R.check(ok, 'StepSizeSlopeLimiter :: insignificant changes keep dt, but never for a step that restarts', w, 'dt_new = dt if |ratio-1| < dt_rel_min_slope and not restart', [c.describe() for c in third])
+
+
+@rule('C09', 'C09.R9', 'control-order partial order of the convergence controllers (effective defaults folded along the MRO)', floor=34)
+def r9(ctx, R):
+    repo = ctx.repo
+    base = repo.cls('pySDC/core/convergence_controller.py', 'ConvergenceController')
+    eff = {}
+    for ci in repo.subclasses(base, strict=True):
+        if not repo.is_library(ci):
+            continue
+        v, forced, origin, kind = setups.effective(setups.fold(repo, ci), 'control_order')
+        if v is None:
+            continue
+        try:
+            eff[ci.name] = int(ast.literal_eval(v))
+        except Exception:
+            raise AnalysisError(f'{ci.name}: default control_order {v!r} is not a literal')
+    def lt(a, b, why):
+        if a not in eff or b not in eff:
+            raise AnalysisError(f'C09.R9: controller {a if a not in eff else b} vanished')
+        R.check(eff[a] < eff[b], f'{a} ({eff[a]}) before {b} ({eff[b]})', f'{CC}', f'{why}', f'{eff[a]} !< {eff[b]}')
+    for est in ('EstimateEmbeddedError', 'EstimateExtrapolationErrorNonMPI', 'EstimatePolynomialError', 'EstimateContractionFactor', 'EstimateExtrapolationErrorWithinQ'):
+        for ad in ('Adaptivity', 'AdaptivityRK', 'AdaptivityPolynomialError', 'AdaptivityExtrapolationWithinQ'):
+            lt(est, ad, 'the error estimate must exist before the step-size controller reads it')
+    lt('EstimateEmbeddedError', 'StoreUOld', 'the embedded estimate reads uold before it is overwritten')
+    for ad in ('Adaptivity', 'AdaptivityRK', 'AdaptivityResidual', 'AdaptivityPolynomialError', 'AdaptivityExtrapolationWithinQ', 'AdaptivityCollocation'):
+        if ad != 'AdaptivityCollocation':
+            lt(ad, 'StepSizeSlopeLimiter', 'limits are applied after the proposal')
+    lt('StepSizeSlopeLimiter', 'StepSizeLimiter', 'absolute limits after slope limits')
+    lt('StepSizeLimiter', 'StepSizeRounding', 'rounding after limiting')
+    lt('StepSizeRounding', 'BasicRestartingNonMPI', 'restart decision after the step size is final')
+    lt('BasicRestartingNonMPI', 'SpreadStepSizesBlockwiseNonMPI', 'spreading after the restart decision')
+    lt('BasicRestartingMPI', 'SpreadStepSizesBlockwiseMPI', 'spreading after the restart decision')
+    lt('SpreadStepSizesBlockwiseNonMPI', 'CheckConvergence', 'convergence check last among the standard controllers')
+    lt('CheckConvergence', 'EstimateEmbeddedErrorCollocation', 'collocation-switching controllers act on converged collocation problems')
+    lt('EstimateEmbeddedErrorCollocation', 'AdaptivityCollocation', 'estimate before the controller that reads it')
+    lt('AdaptivityCollocation', 'AdaptiveCollocation', 'switching the collocation problem comes last')
+    # the slope limiter is registered relative to the limiter
+    fn = repo.func(LIM, 'StepSizeLimiter.dependencies')
+    src = ast.unparse(fn)
+    ok = "['control_order'] = self.params.control_order - 1" in src and 'add_convergence_controller(StepSizeSlopeLimiter' in src
+    R.check(ok, 'StepSizeLimiter.dependencies :: slope limiter registered with control_order - 1', f'{LIM}:StepSizeLimiter.dependencies', "control_order = self.params.control_order - 1", src[-200:])
+
+
+@rule('C09', 'C09.R10', 'Tend limiting: new dt = min(proposal or dt, max((Tend - t)/size, dt_initial)); serial and MPI agree on the skeleton', floor=3)
+def r10(ctx, R):
+    repo = ctx.repo
+    sk = {}
+    for cn in ('SpreadStepSizesBlockwiseNonMPI', 'SpreadStepSizesBlockwiseMPI'):
+        fn = repo.func(SP, f'{cn}.prepare_next_block')
+        w = f'{SP}:{cn}.prepare_next_block'
+        R.fn(w)
+        N = Normalizer(fn, inline_scalars=False)
+        src = [c for c in N.contribs if c.target.startswith('new_steps[') and c.rhs and c.rhs.startswith('min(')]
+        sk[cn] = src[0].rhs if src else None
+        ok = len(src) == 1 and src[0].rhs == 'min([l.status.dt_new if l.status.dt_new is not None else l.params.dt, max([dt_max, l.params.dt_initial])])'
+        R.check(ok, f'{cn} :: new step = min(proposal if set else dt, max(dt_max, dt_initial))', w, 'min([dt_new if dt_new is not None else dt, max([dt_max, dt_initial])])', sk[cn])
+        dm = [c for c in N.contribs if c.target == 'dt_max']
+        want = '(Tend - time[restart_at] - dt_all[restart_at]) / size if self.params.overwrite_to_reach_Tend else np.inf' if cn.endswith('NonMPI') else 'comm.bcast((Tend - time) / size, root=restart_at) if self.params.overwrite_to_reach_Tend else np.inf'
+        R.check(len(dm) == 1 and dm[0].rhs == want, f'{cn} :: dt_max = (Tend - next block start)/size when overwrite_to_reach_Tend else inf', w, want, [c.rhs for c in dm])
+    R.check(sk['SpreadStepSizesBlockwiseNonMPI'] == sk['SpreadStepSizesBlockwiseMPI'], 'SpreadStepSizesBlockwise :: serial and MPI flavours share the min/max skeleton', SP, 'identical normal form', sk)
